@@ -97,17 +97,21 @@ def run_check(prop, tier="quick", facts_override=None, write_evidence=True, quie
     seed = int(os.environ.get("VERIF_SEED", "0") or 0)
     ctx = Ctx(prop, tier, facts_override)
     mod = importlib.import_module("rules.%s" % prop.lower())
+    checker_error = None
     try:
         mod.run(ctx)
     except CheckerError as e:
+        # a lost anchor stops the rule evaluation; violations recorded before it are still real and are reported below
+        checker_error = str(e)
         print("CHECKER-ERROR property=%s %s" % (prop, e))
-        return 2, ctx, []
+        if not any(o["status"] == "violation" for o in ctx.obs):
+            return 2, ctx, []
     except Exception:
         traceback.print_exc()
         print("CHECKER-ERROR property=%s internal error in rule evaluation" % prop)
         return 2, ctx, []
     extra = {}
-    if tier == "thorough" and facts_override is None:
+    if tier == "thorough" and facts_override is None and checker_error is None:
         try:
             extra = thorough_extras(prop, ctx)
         except CheckerError as e:
@@ -144,7 +148,7 @@ def run_check(prop, tier="quick", facts_override=None, write_evidence=True, quie
         for ln in out:
             print(ln)
     resolved = [k for k, d in known.items() if d["property"] == prop and k not in seen_keys]
-    if write_evidence:
+    if write_evidence and checker_error is None:
         write_ev(prop, tier, seed, ctx, mod, new, kn, resolved, time.time() - t0, extra)
     for r in extra.get("selftest", []):
         if not quiet and r["status"] != "detected":
@@ -153,6 +157,8 @@ def run_check(prop, tier="quick", facts_override=None, write_evidence=True, quie
         n_ok = sum(1 for o in ctx.obs if o["status"] == "ok")
         print("%s %s: %d obligations, %d ok, %d known findings, %d new violations, %.1fs"
               % (prop, tier, len(ctx.obs), n_ok, len(kn), len(new), time.time() - t0))
+    if checker_error is not None:
+        return (1 if new else 2), ctx, new
     return (1 if new else 0), ctx, new
 
 
